@@ -3,7 +3,7 @@ package main
 func init() {
 	register(&propSpec{
 		ID:    "C05",
-		Rules: []func(*Ctx){ruleR05a, ruleR05b, ruleR05f, ruleR05g, ruleR05h},
+		Rules: []func(*Ctx){ruleR05a, ruleR05b, ruleR05f, ruleR05g, ruleR05h, ruleR05i},
 		Explain: "R05a: every scanner loop that reads input is evaluated with each rune read yielding eof (the source predicates are evaluated on that one constant) and must leave within a bounded unrolling;  R05g: for each read site in turn, when that read yields eof no manual rewind of the scanner position follows before another read; R05h: every manual rewind is by the recorded width, a constant, or inside the start guard (anything else is undecided)." +
 			"R05b: every parser loop that reads tokens is evaluated with reads yielding the closed-channel item / EOF / error item and must leave (return, break, or a raising call); " +
 			"R05f: the scanner's end-of-input state transition graph is acyclic and ends in nil.",
@@ -65,7 +65,7 @@ func init() {
 func init() {
 	register(&propSpec{
 		ID:         "C03",
-		Rules:      []func(*Ctx){ruleR03a, ruleR03b, ruleR03c, ruleR03d, ruleR03e, ruleR02e},
+		Rules:      []func(*Ctx){ruleR03a, ruleR03b, ruleR03c, ruleR03d, ruleR03e, ruleR03f, ruleR10f, ruleR02e},
 		Explain:    "R03a: evalPrint is evaluated (finite-domain, AST) for every autoescape mode x cancel-flag value: unless the mode is off or a directive cancels, every completing path writes through the escaper and none writes raw; R03b: every cancelling PrintDirectives entry is in the language's list, and the HTML-producing / re-encoding ones return only data that passed their escaper (SSA taint from the value parameter to every return); R03c: the escaper's table covers the five characters with references that decode back and contain none of them; R03d: parseAutoescape yields the off mode only for \"false\". R03e: the autoescape mode of a live state is assigned only by the template-level attribute case of the walker; R02e: a called template runs on its own state.",
 		NotDecided: "index arithmetic inside the escaper loop (which byte ranges are copied); user-registered directives; contextual (attribute/JS/URI-aware) escaping, which this implementation does not provide.",
 		Assumes:    []string{"text/template.HTMLEscapeString, net/url.QueryEscape, text/template.JSEscapeString and encoding/json.Marshal are correct encoders"},
@@ -75,7 +75,7 @@ func init() {
 func init() {
 	register(&propSpec{
 		ID:         "C06",
-		Rules:      []func(*Ctx){ruleR06a, ruleR06b, ruleR06c, ruleR06d, ruleR06e, ruleR06f, ruleR02e},
+		Rules:      []func(*Ctx){ruleR06a, ruleR06b, ruleR06c, ruleR06d, ruleR06e, ruleR06f, ruleR02e, ruleR05i},
 		Explain:    "R06a: every exported soyhtml entry that can reach the tree walker defers the recover handler (with its named error) first, and the handler assigns the error on every recovered path; R06b: the handler's own call tree (errRecover, errorf, errFromNode, callAnnotation, Registry.Filename/LineNumber/ColNumber, NewErrFilePosf) contains no unguarded nil dereference of a field, slice bound, index or single-value type assertion; R06c: Registry.Add rejects an already-registered template name before recording it; R06d: every non-range loop reachable from a render entry is a counted loop with a fixed-sign step or a sign guard; R06e: code that runs before/outside the recover contains no explicit raise except named exceptions; R06f: user callbacks (Func.Apply, PrintDirective.Apply) are invoked only under a recover. R02e/R02f (shared with C02): callee state and unconditional param binding, on which the termination of recursive templates with inherited data rests.",
 		NotDecided: "data-bounded recursion (excluded by the property); faults inside user callbacks beyond the recover wrapper; exhaustion of memory by legitimately large data.",
 		Assumes:    []string{"fmt recovers panics raised by String()/Error() methods it calls", "positions stored in parse-tree nodes are non-negative"},
@@ -98,7 +98,7 @@ func init() {
 		Rules: []func(*Ctx){ruleR13a, ruleR13b, func(c *Ctx) { runEffects(c, "R13c", compileEntries, true, nil) },
 			func(c *Ctx) {
 				runEffects(c, "R13d", renderEntries, false, map[string]string{"(soyhtml.scope).set mapupdate": "scope-frame typestate (R08b)"})
-			}},
+			}, ruleR10g},
 		Explain:    "R13a: every range over a map in the functions reachable from compile, JS generation and render entries (plus every String() of ast/data/parse) is order-insensitive: it only stores under the range key, updates the element itself, counts, tests existence, or collects into a slice that is sorted before use; R13b: no reachable read of clock, environment or random source (randomInt excepted by specification); R13c: no package-state write on the compile side (so one compile cannot influence the next); R13d: generating JavaScript or rendering does not modify the compiled bundle (C08's effect analysis), so a second generation from the same registry emits the same bytes.",
 		NotDecided: "insertion-order semantics (which of two files defining a name wins, which of several independent errors is reported first).",
 		Assumes:    []string{"library functions listed as pure do not depend on map order", "VTA call graph for reachability"},
@@ -108,7 +108,7 @@ func init() {
 func init() {
 	register(&propSpec{
 		ID:         "C10",
-		Rules:      []func(*Ctx){ruleR10a, ruleR10b, ruleR10c, ruleR10d},
+		Rules:      []func(*Ctx){ruleR10a, ruleR10b, ruleR10c, ruleR10d, ruleR10f, ruleR10g},
 		Explain:    "R10a: no range over a map on the id / placeholder-name path is order-sensitive (K6); R10b: of ast.MsgNode the id computation reads only Body and Meaning, reads no source position, and reads only package variables that are never written after init (SSA field-read sets over the reachable functions); R10c: ids and placeholder names are assigned only in soymsg, which is called only from the compile pass and the extractor. R10d: the suffix-collision test consults the base-name table; R10e: all plural bodies are fingerprinted with braced placeholders.",
 		NotDecided: "numeric agreement of fingerprint/hash32 with the official algorithm; the exact placeholder names the official algorithm would choose.",
 		Assumes:    []string{"VTA call graph for reachability"},
